@@ -358,40 +358,51 @@ func (q *Queue[T]) Distributor() Distributor[T] {
 func (q *Queue[T]) Producer() fun.Producer[T] {
 	var next *entry[T]
 	return func(ctx context.Context) (o T, _ error) {
-		if next == nil {
-			q.mu.Lock()
-			next = q.front
-			q.mu.Unlock()
-		}
-
 		q.mu.Lock()
-		if next.link == q.front {
-			q.mu.Unlock()
-			return o, io.EOF
+		defer q.mu.Unlock()
+
+		if next == nil {
+			next = q.front
 		}
 
-		if next.link != nil {
-			next = next.link
-			q.mu.Unlock()
-		} else if next.link == nil {
-			if q.closed {
-				q.mu.Unlock()
+		// If the context terminates, (or when this function
+		// returns,) wake the waiters.
+		ctx, cancel := context.WithCancel(ctx)
+		defer cancel()
+		waiting := false
+
+		for {
+			if next.link == nil && next != q.back {
+				// the cursor was removed from the queue
+				// while it was the last entry: everything
+				// in the queue now is newer than it.
+				next = q.front
+			}
+
+			if next.link == q.front {
 				return o, io.EOF
 			}
 
-			q.mu.Unlock()
-			internal.VerifPoint("pubsub.Queue.Producer.unlocked")
-			if err := q.waitForNew(ctx); err != nil {
+			if next.link != nil {
+				next = next.link
+				return next.item, nil
+			}
+
+			if q.closed {
+				return o, ErrQueueClosed
+			}
+
+			if err := ctx.Err(); err != nil {
 				return o, err
 			}
 
-			q.mu.Lock()
-			if next.link != q.front {
-				next = next.link
+			if !waiting {
+				waiting = true
+				go func() { <-ctx.Done(); q.mu.Lock(); defer q.mu.Unlock(); q.nupdates.Broadcast() }()
 			}
-			q.mu.Unlock()
-		}
 
-		return next.item, nil
+			internal.VerifPoint("pubsub.wait.before-cond-wait")
+			q.nupdates.Wait()
+		}
 	}
 }
